@@ -90,26 +90,25 @@ where
         T2: DualNum<F2>,
         DefaultAllocator: Allocator<R, C>,
     {
-        self.0
-            .as_ref()
-            .and_then(move |eps| {
-                let (nrows, ncols) = eps.shape_generic();
-                let mut res: Matrix<MaybeUninit<T2>, R, C, _> = Matrix::uninit(nrows, ncols);
+        let Some(eps) = self.0.as_ref() else {
+            // an absent derivative maps to an absent derivative
+            return Some(Derivative::none());
+        };
+        let (nrows, ncols) = eps.shape_generic();
+        let mut res: Matrix<MaybeUninit<T2>, R, C, _> = Matrix::uninit(nrows, ncols);
 
-                for j in 0..ncols.value() {
-                    for i in 0..nrows.value() {
-                        // Safety: all indices are in range.
-                        unsafe {
-                            let a = eps.data.get_unchecked(i, j);
-                            *res.data.get_unchecked_mut(i, j) = MaybeUninit::new(f(a)?);
-                        }
-                    }
+        for j in 0..ncols.value() {
+            for i in 0..nrows.value() {
+                // Safety: all indices are in range.
+                unsafe {
+                    let a = eps.data.get_unchecked(i, j);
+                    *res.data.get_unchecked_mut(i, j) = MaybeUninit::new(f(a)?);
                 }
+            }
+        }
 
-                // Safety: res is now fully initialized.
-                Some(unsafe { res.assume_init() })
-            })
-            .map(Derivative::some)
+        // Safety: res is now fully initialized.
+        Some(Derivative::some(unsafe { res.assume_init() }))
     }
 
     pub fn derivative_generic(r: R, c: C, i: usize) -> Self {
